@@ -79,6 +79,9 @@ func (b *delBatch) params() *prover.DeletionParameters {
 // validInsBatches / validDelBatches: valid transitions at (d,b) from several tree
 // states (empty, with holes, ending at the last leaf / duplicates, padding).
 func validInsBatches(d, b int) []insBatch {
+	if d > 16 {
+		return sparseInsBatches(d, b)
+	}
 	n := 1 << uint(d)
 	rm1 := new(big.Int).Sub(ref.R, ref.B(1))
 	var out []insBatch
@@ -119,6 +122,9 @@ func validInsBatches(d, b int) []insBatch {
 }
 
 func validDelBatches(d, b int) []delBatch {
+	if d > 16 {
+		return sparseDelBatches(d, b)
+	}
 	n := 1 << uint(d)
 	rm1 := new(big.Int).Sub(ref.R, ref.B(1))
 	full := ref.NewTree(ref.BN, d)
@@ -339,4 +345,55 @@ func proofVariants(ps *prover.ProvingSystem, proofJSON []byte, maxTrials int) ([
 		out = append(out, proofVariant{js, short})
 	}
 	return out, nil
+}
+
+// sparseInsBatches / sparseDelBatches: valid batches on deep trees (reference: ref.Sparse), at the first
+// leaves and at the last leaves of the tree.
+func sparseInsBatches(d, b int) []insBatch {
+	var out []insBatch
+	size := new(big.Int).Lsh(big.NewInt(1), uint(d))
+	for _, start := range []*big.Int{big.NewInt(0), new(big.Int).Sub(size, big.NewInt(int64(b)))} {
+		t := ref.NewSparse(ref.BN, d)
+		t.Set(1<<uint(d-1)-1, ref.B(77)) // something elsewhere in the tree
+		if start.Sign() == 0 {
+			t = ref.NewSparse(ref.BN, d)
+		}
+		bt := insBatch{Depth: d, Start: start.String(), Pre: t.Root().String()}
+		for i := 0; i < b; i++ {
+			ix := new(big.Int).Add(start, big.NewInt(int64(i))).Uint64()
+			cm := ref.B(int64(i + 5))
+			bt.Comms = append(bt.Comms, cm.String())
+			bt.Proofs = append(bt.Proofs, strs(t.Proof(ix)))
+			t.Set(ix, cm)
+		}
+		bt.Post = t.Root().String()
+		h, _ := bt.refHash(ref.BN)
+		bt.Hash = h.String()
+		out = append(out, bt)
+	}
+	return out
+}
+
+func sparseDelBatches(d, b int) []delBatch {
+	var out []delBatch
+	size := new(big.Int).Lsh(big.NewInt(1), uint(d))
+	for _, first := range []uint64{0, size.Uint64() - uint64(b)} {
+		t := ref.NewSparse(ref.BN, d)
+		for i := 0; i < b; i++ {
+			t.Set(first+uint64(i), ref.B(int64(i+9)))
+		}
+		bt := delBatch{Depth: d, Pre: t.Root().String()}
+		for i := 0; i < b; i++ {
+			ix := first + uint64(i)
+			bt.Idx = append(bt.Idx, fmt.Sprint(ix))
+			bt.Items = append(bt.Items, t.Leaves[ix].String())
+			bt.Proofs = append(bt.Proofs, strs(t.Proof(ix)))
+			t.Set(ix, ref.B(0))
+		}
+		bt.Post = t.Root().String()
+		h, _ := bt.refHash(ref.BN)
+		bt.Hash = h.String()
+		out = append(out, bt)
+	}
+	return out
 }
